@@ -41,8 +41,10 @@ func (t *pt) String() string {
 		return t.n.String()
 	case "N", "P", "B", "B256", "B248":
 		return t.op
-	case "param", "draw":
+	case "param", "draw", "asmret":
 		return t.s
+	case "needexp":
+		return "needExpand" + t.s
 	case "lit":
 		return "lit(" + t.s + ")"
 	}
@@ -69,6 +71,9 @@ func pOp(op string, a ...*pt) *pt { return &pt{op: op, args: a} }
 func pParam(name string) *pt      { return &pt{op: "param", s: name} }
 func pBe(v *pt, n int) *pt        { return &pt{op: "be", args: []*pt{v}, k: n} }
 func pSub(b *pt, lo, hi int) *pt {
+	if b.op == "sub" {
+		return pSub(b.args[0], b.k+lo, b.k+hi) // a slice of a slice is a slice of the original
+	}
 	return &pt{op: "sub", args: []*pt{b}, k: lo, n: big.NewInt(int64(hi))}
 }
 func pLit(bytes []byte) *pt { return &pt{op: "lit", s: fmt.Sprintf("%x", bytes), k: len(bytes)} }
@@ -241,6 +246,10 @@ func domainFacts(terms []*pt) []Fact {
 			}
 		case "len":
 			out = append(out, Fact{E: self})
+		case "cap":
+			out = append(out, Fact{E: self}, Fact{E: self.Sub(linTerm(pOp("len", t.args[0]).String(), false))})
+		case "needexp", "asmret":
+			out = append(out, Fact{E: self}, Fact{E: linConst(1).Sub(self)})
 		case "byte":
 			out = append(out, Fact{E: self}, Fact{E: linConst(255).Sub(self)})
 		case "mod", "inv":
@@ -427,6 +436,10 @@ type protoDom struct {
 	globals map[string]func(st *sState) sVal
 	notes   []string
 	structPoints bool // decoder mode: SM2Point values are ordinary structs of three elements
+	glue         bool // glue mode: slices are symbolic shapes (checker/glue.go)
+	contracts    map[string]*xContract
+	gOK          map[string]int
+	gBad         map[string][]string
 }
 
 func (st *sState) addFact(f pFact) { st.pfacts = append(st.pfacts, f) }
